@@ -16,7 +16,8 @@ package kv
 //@ global ErrReadOnly nonnil
 
 // Object invariant of an open DB handle.
-//@ spec dbOK(s *DB) bool = s != nil && s.crdt.Mast != nil && s.crdt.Created != nil && s.root != nil && s.merged != nil && s.cfg != nil && s.s3Client != nil
+//@ spec dbOK(s *DB) bool = s != nil && s.crdt.Mast != nil && s.crdt.Created != nil && s.root != nil && s.merged != nil && s.cfg != nil && s.s3Client != nil &&
+//@     typeis(s.persist, *persistEncryptor) && s.persist.(*persistEncryptor) != nil && s.persist.(*persistEncryptor).Persist != nil
 
 // A commit has nothing to do when nothing is buffered and the handle is based
 // on at most one version.
@@ -145,6 +146,9 @@ package kv
 //@   requires persist != nil
 //@   modifies nothing
 //@   ensures imp(err == nil, result0 != nil && fresh(result0)) && imp(err != nil, result0 == nil)
+// ASSUMED about stored data: every version object was written by Commit, whose
+// MakeRoot always records the creation time
+//@   ensures-assumed stored-wellformed: imp(err == nil, result0.Created != nil)
 
 // loadRootFromAny: look the version up in each place in turn; (nil, nil, nil)
 // means every place answered NoSuchKey; any other failure is an error.
@@ -220,3 +224,112 @@ package kv
 //@   at call:kv.mergeRoots assert named-strict: imp(opts.OnlyVersions != nil, !skipUnreadable)
 //@   at call:kv.mergeRoots assert named-exactly: imp(opts.OnlyVersions != nil, versionsToLoad == opts.OnlyVersions)
 //@   at call:kv.mergeRoots assert named-no-list-yet: imp(opts.OnlyVersions != nil, lists == old(lists))
+
+// ---------------------------------------------------------------------------
+// Vacuum, kv side (properties C09, C10, C13).
+//
+// The version graph: loadRootGraph collects the merged ancestors of the
+// handle's version, getDependents inverts it (parent -> children).
+//@ func getFirst
+//@   modifies nothing
+//@   ensures imp(result1, has(m, result0))
+//@   ensures forall k string :: imp(!result1, !has(m, k))
+
+//@ func (DB).loadRootGraph
+//@   requires s.merged != nil && s.root != nil
+//@   modifies nothing
+//@   ensures imp(err == nil, result0 != nil && fresh(result0)) && imp(err != nil, result0 == nil)
+//@   ensures forall k string :: imp(err == nil && has(result0, k), result0[k] != nil)
+//@   loop 1 invariant -1 <= rangeindex && rangeindex < len(s.crdt.MergeSources) && todo != nil && fresh(todo) && g != nil && fresh(g)
+//@   loop 2 invariant todo != nil && fresh(todo) && g != nil && fresh(g) && len(persists) == 2 && persists[0] != nil && persists[1] != nil
+//@   loop 2 invariant forall k string :: imp(has(g, k), g[k] != nil)
+//@   loop 3 invariant -1 <= rangeindex && rangeindex < len(root.MergeSources)
+//@   loop 3 invariant todo != nil && fresh(todo) && g != nil && fresh(g) && root != nil
+//@   loop 3 invariant len(persists) == 2 && persists[0] != nil && persists[1] != nil
+//@   loop 3 invariant forall k string :: imp(has(g, k), g[k] != nil)
+
+//@ func getDependents
+//@   modifies nothing
+//@   requires forall k string :: imp(has(mergedRoots, k), mergedRoots[k] != nil)
+//@   ensures result != nil && fresh(result)
+//@   ensures forall p string :: imp(has(result, p), result[p] != nil && fresh(result[p]))
+//@   ensures forall p string, c string :: imp(has(result, p) && has(result[p], c), result[p][c] != nil && has(mergedRoots, c) && result[p][c] == mergedRoots[c])
+//@   loop 1 invariant dependents != nil && fresh(dependents)
+//@   loop 1 invariant forall p string :: imp(has(dependents, p), dependents[p] != nil && fresh(dependents[p]))
+//@   loop 1 invariant forall p string, c string :: imp(has(dependents, p) && has(dependents[p], c), dependents[p][c] != nil && has(mergedRoots, c) && dependents[p][c] == mergedRoots[c])
+//@   loop 2 invariant -1 <= rangeindex && rangeindex < len(root.MergeSources) && root != nil && has(mergedRoots, name) && root == mergedRoots[name]
+//@   loop 2 invariant dependents != nil && fresh(dependents)
+//@   loop 2 invariant forall p string :: imp(has(dependents, p), dependents[p] != nil && fresh(dependents[p]))
+//@   loop 2 invariant forall p string, c string :: imp(has(dependents, p) && has(dependents[p], c), dependents[p][c] != nil && has(mergedRoots, c) && dependents[p][c] == mergedRoots[c])
+
+// getHistoricRootsAndNodes (C09, C10): a version is a candidate for deletion
+// only if EVERY version that was merged from it (its children in the graph)
+// was created no later than the cutoff; a node is a candidate only if the diff
+// reported it as removed (in the parent, not in the child).
+//@ spec oldEnough(r *crdt.Root, cutoff time.Time) bool = r != nil && r.Created != nil && !(ns(*r.Created) > ns(cutoff))
+
+//@ func (*DB).getHistoricRootsAndNodes$1
+//@   requires candidateBlocks != nil && *candidateBlocks != nil
+//@   modifies contents(*candidateBlocks)
+//@   ensures result0 && result1 == nil
+//@   ensures removed-becomes-candidate: imp(removed && typeis(link, string), has(*candidateBlocks, link.(string)))
+//@   ensures only-removed: forall k string :: imp(has(*candidateBlocks, k) && !old(has(*candidateBlocks, k)), removed && typeis(link, string) && k == link.(string))
+//@   ensures kept: forall k string :: imp(old(has(*candidateBlocks, k)), has(*candidateBlocks, k))
+
+// the log callback only reports
+//@ func (*DB).getHistoricRootsAndNodes#logFunc
+//@   trusted
+//@   modifies nothing
+
+//@ func (*DB).getHistoricRootsAndNodes
+//@   requires dbOK(s)
+//@   modifies nothing
+//@   ensures imp(err != nil, len(result0) == 0 && len(result1) == 0)
+//@   ensures-local roots-superseded: forall j int, c string :: imp(err == nil && 0 <= j && j < len(result0) && has(parentToChildren[result0[j]], c), has(parentToChildren, result0[j]) && oldEnough(parentToChildren[result0[j]][c], olderThan))
+//@   loop 1 modifies contents(candidateRoots)
+//@   loop 2 modifies nothing
+//@   loop 1 invariant candidateRoots != nil && fresh(candidateRoots) && parentToChildren != nil && candidateRoots != parentToChildren
+//@   loop 1 invariant forall p string :: imp(has(candidateRoots, p), has(parentToChildren, p) && candidateRoots[p] == parentToChildren[p])
+//@   loop 1 invariant forall p string, c string :: imp(has(candidateRoots, p) && has(parentToChildren[p], c), oldEnough(parentToChildren[p][c], olderThan))
+//@   loop 2 invariant has(parentToChildren, parent)
+//@   loop 2 invariant children == parentToChildren[parent]
+//@   loop 2 invariant children != nil
+//@   loop 2 invariant forall c string :: imp(visited(c), oldEnough(children[c], olderThan))
+//@   loop 3 invariant candidateBlocks != nil && fresh(candidateBlocks)
+//@   loop 4 invariant candidateBlocks != nil && fresh(candidateBlocks) && parent != nil && parent.Mast != nil && children == candidateRoots[parentName] && has(candidateRoots, parentName)
+//@   loop 5 invariant candidateBlocks != nil && fresh(candidateBlocks)
+//@   loop 6 invariant forall j int :: imp(0 <= j && j < len(roots), has(candidateRoots, roots[j]))
+
+// RemoveTombstones (C10, row side): an entry is purged exactly when it carries
+// a tombstone stamp strictly before the cutoff; everything else is untouched.
+// The per-entry decision is the callback (verified); that DiffIter(nil) calls
+// it once for every entry is ASSUMED (higher-order dependency).
+//@ func (*DB).RemoveTombstones$1
+//@   requires s != nil && *s != nil && (*s).crdt.Mast != nil && cutoff != nil && ctx != nil && typeis(addedValue, crdtpub.Value)
+//@   modifies *(*s).crdt.Mast
+//@   ensures kept: imp(addedValue.(crdtpub.Value).TombstoneSinceEpochNanos == 0 || addedValue.(crdtpub.Value).TombstoneSinceEpochNanos >= *cutoff, result0 && result1 == nil && *(*s).crdt.Mast == old(*(*s).crdt.Mast))
+//@   ensures purged: imp(addedValue.(crdtpub.Value).TombstoneSinceEpochNanos != 0 && addedValue.(crdtpub.Value).TombstoneSinceEpochNanos < *cutoff && result1 == nil, result0 && !has(T(*(*s).crdt.Mast), akey(key)))
+//@   ensures others: forall a int :: imp(result1 == nil && a != akey(key), has(T(*(*s).crdt.Mast), a) == old(has(T(*(*s).crdt.Mast), a)) && T(*(*s).crdt.Mast)[a] == old(T(*(*s).crdt.Mast)[a]))
+
+//@ func (*DB).RemoveTombstones
+//@   requires dbOK(s)
+//@   modifies *s.crdt.Mast, s.tombstoned
+//@   ensures flagged: imp(result == nil && mastSize(*s.crdt.Mast) < old(mastSize(*s.crdt.Mast)), s.tombstoned)
+//@   ensures flag-kept: imp(old(s.tombstoned), s.tombstoned)
+//@   ensures-assumed purge-exact: forall a int :: imp(result == nil, has(T(*s.crdt.Mast), a) == (old(has(T(*s.crdt.Mast), a)) && !(old(T(*s.crdt.Mast)[a]).TombstoneSinceEpochNanos != 0 && old(T(*s.crdt.Mast)[a]).TombstoneSinceEpochNanos < wrap64(ns(before)))))
+//@   ensures-assumed kept-values: forall a int :: imp(result == nil && has(T(*s.crdt.Mast), a), T(*s.crdt.Mast)[a] == old(T(*s.crdt.Mast)[a]))
+
+// DeleteHistoricVersions (C09, C10, C13): read-only handles are refused before
+// any request; only DELETE requests are issued; node objects are deleted
+// before the version objects that reference them.
+// linkIn(v, n): node object n is part of the tree of snapshot v.
+//@ ufunc linkIn(v int, n string) bool
+//@ func DeleteHistoricVersions
+//@   requires dbOK(s)
+//@   modifies deletes
+//@   ensures readonly: imp(s.readonly, result == ErrReadOnly && deletes == old(deletes))
+//@   ensures no-put: puts == old(puts)
+//@   loop 1 invariant -1 <= rangeindex && rangeindex < len(nodes) && puts == old(puts)
+//@   loop 2 invariant -1 <= rangeindex && rangeindex < len(roots) && puts == old(puts)
+//@   at call:kv.S3Interface.DeleteObjectWithContext assert node-not-in-current-version: !linkIn(*s.crdt.Mast, l)
+//@   at call:kv.S3Interface.DeleteObjectWithContext#3 assert only-empty-current: mastSize(*s.crdt.Mast) == 0 && !(ns(*root.Created) >= ns(before))
